@@ -155,6 +155,10 @@ def regenerate_sources():
                 continue
             fails.append(f"translator tools/{tool}: " + err.strip()[-300:])
             continue
+        for l in err.splitlines():
+            if l.startswith("FALLBACK "):
+                TRANSLATOR_NOTES.append(f"translator tools/{tool}: {l[9:].strip()[-200:]} — the values generated last are used "
+                                        "for this group (pinned model)")
         path = os.path.join(LEAN, "DdsModel", fname)
         cur = open(path).read() if os.path.exists(path) else ""
         if out != cur:
